@@ -17,7 +17,7 @@ func init() {
 			"PrefixMatch/WildcardMatch and 'longer pattern wins'; that YIELD/ERROR are looked up under (callee session, request) and forwarded only when the sender owns the invocation; that a callee is " +
 			"added to an existing registration only under a sharing policy equal to the requested one and only once; that the set of policies accepted by register equals the arms of the selection switch in " +
 			"syncCall; that wamp.* procedures are refused for clients; that INVOCATION fields (request id, registration id, payload, receive_progress, procedure, timeout) have the right provenance and guards; " +
-			"that UNREGISTER acts only for a member; that removing a callee edits the registration and its tables consistently.",
+			"that UNREGISTER acts only for a member; that removing a callee edits the registration and its tables consistently and keeps the order of the remaining callees; that a progressive call keeps its invocation record (and so its callee and invocation id) until the final chunk.",
 		NotDecided: "fairness of round-robin under membership churn, randomness of 'random', uniqueness of invocation ids as a run-time fact, histories.",
 		Run: runC03,
 	})
